@@ -227,3 +227,11 @@ chk("C29", MC,
     "ProcessSyncGroup whose shared Arrays are symbolic byte arrays; the child is a deep copy sharing only the Arrays; symbolic "
     "values written through the real descriptors on one side are read on the other; every other variable keeps its value",
     PY_NOTE, "symbolic execution of the Python source (own z3-backed engine), values symbolic over each format's range", "B:8/C29")
+
+chk("C08", TV,
+    "seeded random declaration sets (array and per-CPU maps declared in the program or a base class, variables of all integer, "
+    "x and multi-element formats in base class, program and 1-2 subprogram instances, overridden names): layout disjointness; "
+    "program side = emitted bytes executed symbolically over a symbolic map (reads with sign, writes, frame condition with a "
+    "symbolic address); Python side = real descriptors executed symbolically on symbolic map bytes and symbolic per-CPU lookup "
+    "results; both against one byte-level reference",
+    BASE_NOTE, "symbolic execution of the emitted eBPF bytes (z3 bit-vectors) and of the Python descriptors against a common byte-level reference", "A:8/C08")
